@@ -35,18 +35,20 @@ StackAgrees(ev) ==
        /\ (Has("g") => ev.stack[k].base = stack'[k].base)
        \* the words of the frame, wherever the implementation keeps them
        /\ ev.stack[k].words = SubSeq(data', stack'[k].base + 1, stack'[k].base + stack'[k].size)
-PostAgrees(ev) ==
+PostAgreesR(ev, withRet) ==
   /\ ev.ip = ip'
   /\ (Has("o") => {<<ev.ops[i][1], ev.ops[i][2]>> : i \in DOMAIN ev.ops} = OpsDiff')
   /\ (Has("s") => StackAgrees(ev))
   /\ (Has("g") => ev.datalen = Len(data'))
   /\ (Has("e") => {<<ev.enabled[i][1], ev.enabled[i][2]>> : i \in DOMAIN ev.enabled} = enabled')
   /\ (Has("e") => ev.stepping = stepping')
-  /\ (Has("r") => ev.ret = ret')
+  /\ ((Has("r") /\ withRet) => ev.ret = ret')
   /\ (Has("c") => <<ev.cur[1], ev.cur[2]>> = CurrentBreak' /\ ev.done = IsDone')
   /\ (Has("v") => /\ Len(ev.views) = Len(stack')
                   /\ \A k \in DOMAIN stack' : MapOK(k)' =>
                        {<<ev.views[k][i][1], ev.views[k][i][2]>> : i \in DOMAIN ev.views[k]} = ViewOf(k)')
+
+PostAgrees(ev) == PostAgreesR(ev, TRUE)
 
 \* C20: an overflowing addition may store any in-range value, but always the same one for the same operands
 AWT(v, c) == IF Overflows(v, c)
@@ -84,7 +86,7 @@ TClear == /\ IsEvent("clear") /\ l > 1 /\ ClearBreakpoints /\ PostAgrees(Ev) /\ 
 TStep == /\ IsEvent("step") /\ l > 1 /\ SetSteppingMode(Ev.v) /\ PostAgrees(Ev) /\ l' = l + 1 /\ UNCHANGED ovf
 TReset == /\ IsEvent("reset") /\ l > 1 /\ Reset /\ PostAgrees(Ev) /\ l' = l + 1 /\ UNCHANGED ovf
 \* getters only: nothing may have changed
-TInspect == /\ IsEvent("inspect") /\ l > 1 /\ Idle /\ UNCHANGED <<vars, ovf>> /\ PostAgrees(Ev) /\ l' = l + 1
+TInspect == /\ IsEvent("inspect") /\ l > 1 /\ Idle /\ UNCHANGED <<vars, ovf>> /\ PostAgreesR(Ev, FALSE) /\ l' = l + 1
 
 TNext == TFirst \/ TLoad \/ TSingle \/ TExecuteBegin \/ TRun \/ TSetBP \/ TClear \/ TStep \/ TReset \/ TInspect
 TSpec == TInit /\ [][TNext]_tvars
